@@ -20,14 +20,14 @@ import (
 type task struct {
 	id     int
 	name   string
-	wake   chan struct{}
+	wake   parker
 	done   bool
 	parked string // site at which the task is waiting for the token
 	lockWait bool
 }
 
 type Sim struct {
-	mu        sync.Mutex
+	mu        schedMu
 	tasks     []*task
 	cur       *task
 	rng       uint64
@@ -51,6 +51,7 @@ var (
 	gidMap sync.Map // goroutine id -> *task (only while a Sim is active)
 )
 
+//go:norace
 func (s *Sim) next() uint64 {
 	s.rng += 0x9e3779b97f4a7c15
 	z := s.rng
@@ -74,6 +75,7 @@ func goid() uint64 {
 	return id
 }
 
+//go:norace
 func curTask() (*Sim, *task) {
 	s := active.Load()
 	if s == nil {
@@ -106,6 +108,7 @@ type Result struct {
 // Run executes the given task bodies under the scheduler and returns when all have
 // finished (or a deadlock / step limit is detected). Tasks spawned through Go()
 // while running are scheduled as well.
+//go:norace
 func Run(o Options, names []string, bodies []func()) Result {
 	s := &Sim{rng: o.Seed, policy: o.Policy, maxPre: o.MaxPreempt, maxSteps: o.MaxSteps, traceCap: 400, finished: make(chan struct{})}
 	if s.policy == "" {
@@ -125,19 +128,21 @@ func Run(o Options, names []string, bodies []func()) Result {
 	first := s.pickLocked(nil)
 	s.cur = first
 	s.mu.Unlock()
-	first.wake <- struct{}{}
+	first.wake.wake()
 	<-s.finished
 	gidMap.Range(func(k, v interface{}) bool { gidMap.Delete(k); return true })
 	return Result{Steps: s.steps, Switches: s.preempts, Signature: s.sigHash, Deadlock: s.deadlock, Trace: s.Trace, Panic: s.panicVal}
 }
 
+//go:norace
 func (s *Sim) spawnLocked(name string, body func()) *task {
-	t := &task{id: len(s.tasks), name: name, wake: make(chan struct{}, 1), parked: "start"}
+	t := &task{id: len(s.tasks), name: name, parked: "start"}
+	t.wake.init()
 	s.tasks = append(s.tasks, t)
 	s.liveCount++
 	go func() {
 		gidMap.Store(goid(), t)
-		<-t.wake // wait for the token
+		t.wake.wait() // wait for the token
 		defer func() {
 			if r := recover(); r != nil {
 				s.mu.Lock()
@@ -157,6 +162,7 @@ func (s *Sim) spawnLocked(name string, body func()) *task {
 
 // pickLocked chooses the next task to run among the live ones (all live tasks other
 // than the current one are parked waiting for the token).
+//go:norace
 func (s *Sim) pickLocked(from *task) *task {
 	var live []*task
 	for _, t := range s.tasks {
@@ -188,6 +194,7 @@ func (s *Sim) pickLocked(from *task) *task {
 	return live[int(s.next()%uint64(len(live)))]
 }
 
+//go:norace
 func (s *Sim) record(t *task, site string) {
 	s.steps++
 	h := s.sigHash ^ (uint64(t.id+1) * 0x9e3779b97f4a7c15)
@@ -201,6 +208,7 @@ func (s *Sim) record(t *task, site string) {
 }
 
 // yield is a scheduling point of the current task.
+//go:norace
 func (s *Sim) yield(t *task, site string, lockWait bool) {
 	s.mu.Lock()
 	if s.cur != t {
@@ -224,10 +232,11 @@ func (s *Sim) yield(t *task, site string, lockWait bool) {
 	s.cur = nxt
 	t.parked = site
 	s.mu.Unlock()
-	nxt.wake <- struct{}{}
-	<-t.wake
+	nxt.wake.wake()
+	t.wake.wait()
 }
 
+//go:norace
 func (s *Sim) exit(t *task) {
 	s.mu.Lock()
 	t.done = true
@@ -242,10 +251,11 @@ func (s *Sim) exit(t *task) {
 	}
 	s.cur = nxt
 	s.mu.Unlock()
-	nxt.wake <- struct{}{}
+	nxt.wake.wake()
 }
 
 // Yield is inserted at function entries of the anchored packages.
+//go:norace
 func Yield(site string) {
 	s, t := curTask()
 	if s == nil || t == nil {
@@ -255,6 +265,7 @@ func Yield(site string) {
 }
 
 // Go replaces a `go` statement: under a simulation the goroutine becomes a task.
+//go:norace
 func Go(site string, f func()) {
 	s, t := curTask()
 	if s == nil || t == nil {
@@ -273,6 +284,7 @@ type tryLocker interface {
 }
 
 // Lock replaces x.Lock(): a task never blocks the OS thread on a lock held by a parked task.
+//go:norace
 func Lock(l tryLocker, site string) {
 	s, t := curTask()
 	if s == nil || t == nil {
@@ -292,6 +304,7 @@ type tryRLocker interface {
 }
 
 // RLock replaces x.RLock().
+//go:norace
 func RLock(l tryRLocker, site string) {
 	s, t := curTask()
 	if s == nil || t == nil {
@@ -306,6 +319,7 @@ func RLock(l tryRLocker, site string) {
 }
 
 // Active reports whether the caller runs as a scheduled task.
+//go:norace
 func Active() bool {
 	_, t := curTask()
 	return t != nil
